@@ -104,6 +104,21 @@ def check_arith(acc, pendulum, u, kw, variants=True):
             t2 = pendulum.Time(*us_fields((u + A) % DAYUS))
             if u + A < DAYUS:
                 forms.append(("plus_diff_result", lambda: t + t.diff(t2), exp))
+        if A > 0:
+            # Intervals (what dt2 - dt1 and dt1.diff(dt2) return) of that elapsed length: between UTC values, and between
+            # values of a DST zone on different calendar days with the change in between (their calendar breakdown
+            # differs from the elapsed time; the native timedelta value is the elapsed time)
+            for lbl, start in (("utc", pendulum.DateTime(2021, 3, 27, 12, 0, 0, 0, tzinfo=pendulum.UTC)),
+                               ("paris-dst-start", _PARIS(pendulum, (2021, 3, 27, 12, 0, 0, 0))),
+                               ("paris-dst-end", _PARIS(pendulum, (2021, 10, 30, 20, 30, 0, 0))),
+                               ("new-york-dst-start", _NY(pendulum, (2021, 3, 13, 23, 0, 0, 5)))):
+                end = start + td
+                iv, ivd = end - start, start.diff(end)
+                if obs.td_us(iv) != A:
+                    acc.c["seed_not_canonical"] += 1
+                    continue
+                forms += [(f"plus_Interval/{lbl}", lambda iv=iv: t + iv, exp), (f"minus_Interval/{lbl}", lambda iv=iv: t - iv, exp_s),
+                          (f"plus_diff_Interval/{lbl}", lambda ivd=ivd: t + ivd, exp)]
         for name, fn, expv in forms:
             got, _x = attempt(fn)
             acc.c["evaluations"] += 1
@@ -125,6 +140,24 @@ def check_arith(acc, pendulum, u, kw, variants=True):
         if got != want:
             acc.mismatch(name, "days-rejected" if td.days else "value", case, got, want)
         acc.outcomes["td-with-days" if td.days else "td-within-day"] += 1
+
+
+_ZONES = {}
+
+
+def _in(pendulum, z, f):
+    tz = _ZONES.get(z)
+    if tz is None:
+        tz = _ZONES[z] = pendulum.timezone(z)
+    return pendulum.DateTime.create(*f, tz=tz)
+
+
+def _PARIS(pendulum, f):
+    return _in(pendulum, "Europe/Paris", f)
+
+
+def _NY(pendulum, f):
+    return _in(pendulum, "America/New_York", f)
 
 
 def _dur_us(pendulum, d):
@@ -199,7 +232,11 @@ def run_shard(shard):
     import pendulum
     acc = core.Acc(ID)
     amounts = c03._amounts(shard["thorough"]) + [{"hours": 49}, {"hours": -49, "minutes": 1},
-                                                 {"seconds": 86400 * 3 + 1}, {"microseconds": -(DAYUS * 2 + 1)}]
+                                                 {"seconds": 86400 * 3 + 1}, {"microseconds": -(DAYUS * 2 + 1)},
+                                                 # amounts far beyond the supported range of years of a date
+                                                 {"hours": 10 ** 8}, {"hours": -(10 ** 8) - 1}, {"minutes": 10 ** 10 + 1},
+                                                 {"seconds": -(10 ** 12) - 1}, {"microseconds": 10 ** 18 + 1},
+                                                 {"hours": 10 ** 8, "minutes": -(10 ** 10), "seconds": 10 ** 12, "microseconds": -1}]
     if shard["kind"] == "arith":
         for u in shard["times"]:
             acc.c["states"] += 1
